@@ -160,3 +160,9 @@ end:
 }
 uselistorder i32* @g, { 2, 0, 1 }
 uselistorder_bb @f, %next, { 1, 0 }
+;;; ATOM global/ifunc-resolver-expr
+@i1 = ifunc i32 (), bitcast (i8* ()* @resolver to i32 ()* ()*)
+@i2 = internal ifunc void (i8), bitcast (i8* ()* @resolver to void (i8)* ()*)
+define internal i8* @resolver() {
+  ret i8* null
+}
